@@ -701,7 +701,7 @@ impl NormalizedDurationRecord {
                 // a. Let didRoundBeyondDay be true.
                 // b. Let dayDelta be sign.
                 // c. Set roundedTimeDuration to ? RoundTimeDurationToIncrement(beyondDaySpan, increment × unitLength, roundingMode).
-                let rounded_time = self.norm.round_inner(
+                let rounded_time = beyond_day_span.round_inner(
                     unsafe {
                         NonZeroU128::new_unchecked(unit_length.into())
                             .checked_mul(options.increment.as_extended_increment())
